@@ -225,6 +225,17 @@ theorem compileArgsH_rel (hP : HRelE V drop P) (env : CEnv) : (as : List CExpr) 
         (compileArgsH_rel hP env as ps (fun n hn => hv n (Or.inr hn)) (hd.imp id And.right) h2)
 end
 
+/-- visiting an assignment target registers at most its immediate letter -/
+theorem regLhsH_rel (hP : HRelE V drop P) (st : HSt) (lhs : CExpr) (hv : ∀ n ∈ exprNames lhs, V n) :
+    P st (regLhsH st lhs) := by
+  cases lhs with
+  | imm l s =>
+    simp only [regLhsH]
+    split
+    · exact hP.refl _
+    · exact hP.imm _ _ _ (hv l (by simp [exprNames]))
+  | _ => exact hP.refl _
+
 mutual
 theorem compileStmtH_rel (hP : HRel V drop P) (env : CEnv) : (s : CStmt) → {st st' : HSt} →
     {eff : Option ILEffect} → {b : List String} →
@@ -240,14 +251,17 @@ theorem compileStmtH_rel (hP : HRel V drop P) (env : CEnv) : (s : CStmt) → {st
   | .assign lhs op e, st, st', eff, b, hv, hd, h => by
       obtain ⟨c1, s1, eff0, src, h1, _, _, _, rfl⟩ := invS_assign h
       simp only [stmtNames, List.mem_append] at hv
-      exact hP.trans (compileExprH_rel hP.toHRelE env e (fun n hn => hv n (Or.inr hn)) (by simpa [noConstTernS] using hd) h1)
-        (hP.chk _ _ _ _)
+      exact hP.trans (regLhsH_rel hP.toHRelE st lhs (fun n hn => hv n (Or.inl hn)))
+        (hP.trans (compileExprH_rel hP.toHRelE env e (fun n hn => hv n (Or.inr hn)) (by simpa [noConstTernS] using hd) h1)
+        (hP.chk _ _ _ _))
   | .chain l1 l2 op2 e, st, st', eff, b, hv, hd, h => by
       obtain ⟨c1, s1, effI, srcI, effO, srcO, h1, _, _, _, _, rfl⟩ := invS_chain h
       simp only [stmtNames, List.mem_append] at hv
-      exact hP.trans (hP.trans (hP.trans
+      exact hP.trans (hP.trans (regLhsH_rel hP.toHRelE st l1 (fun n hn => hv n (Or.inl (Or.inl hn))))
+          (regLhsH_rel hP.toHRelE _ l2 (fun n hn => hv n (Or.inl (Or.inr hn)))))
+        (hP.trans (hP.trans (hP.trans
         (compileExprH_rel hP.toHRelE env e (fun n hn => hv n (Or.inr hn)) (by simpa [noConstTernS] using hd) h1)
-        (hP.chk _ _ _ _)) (hP.chk _ _ _ _)) (hP.chk _ _ _ _)
+        (hP.chk _ _ _ _)) (hP.chk _ _ _ _)) (hP.chk _ _ _ _))
   | .store w e, st, st', eff, b, hv, hd, h => by
       obtain ⟨c1, s1, data, h1, _, _, rfl⟩ := invS_store h
       exact hP.trans (compileExprH_rel hP.toHRelE env e (by simpa [stmtNames] using hv) (by simpa [noConstTernS] using hd) h1)
